@@ -1,0 +1,11 @@
+//go:build verif
+// +build verif
+
+// Contracts for the deductive verifier in /verif (govc). Comment-only: no executable code.
+package clientsets
+
+//@ func (*clientSets).ShardIDFor props C13
+//@   requires [count_range] 0 <= c.shardCount && c.shardCount <= 4294967295
+//@   modifies hashwritten
+//@   ensures [unsynced] c.shardCount == 0 ==> result1 != nil
+//@   ensures [same] c.shardCount != 0 ==> result1 == nil && result == shardOf(cluster, c.shardCount) && 0 <= result && result < c.shardCount
